@@ -1,9 +1,11 @@
 package c15
 
 import (
+	"fmt"
 	"strings"
 	"sync"
 	"testing"
+	"verif/harness/cold"
 
 	"verif/harness/ev"
 	"verif/harness/rp"
@@ -65,4 +67,38 @@ func TestAAAConcurrentParsing(t *testing.T) {
 	if first != nil && ev.Failure("addr", first.Fingerprint, first.Msg, firstCase) {
 		t.Errorf("[%s] %s", first.Fingerprint, first.Msg)
 	}
+}
+
+// TestColdChild (fresh child process only, see harness/cold): what a parser accepts does not depend on which role was parsed
+// FIRST in the process. Child k makes its first parses in the k-th of the 24 orders of the four roles (one goroutine, a bare
+// address and an address with port each), then judges a fixed list of texts under every role with the ordinary oracle.
+func TestColdChild(t *testing.T) {
+	if cold.Scenario() == "" {
+		t.Skip("cold-start child only")
+	}
+	k := cold.Index()*ev.Shards() + ev.Shard() // (every shard starts its children at index 0)
+	order := append([]string(nil), roles...)
+	// k-th permutation (factorial number system)
+	for i, f := 0, k%24; i < 3; i++ {
+		n := len(order) - i
+		j := i + f%n
+		f /= n
+		order[i], order[j] = order[j], order[i]
+	}
+	n := 0
+	judge := func(role, s string) {
+		n++
+		if f, _ := decide(aCase{role, s}); f != nil {
+			cold.Report(f.Fingerprint+"/first-roles-parsed-in-the-process: "+strings.Join(order, ","), f.Msg+fmt.Sprintf(" (the first parses of this process were made in the role order %v)", order), aCase{role, s})
+		}
+	}
+	for _, role := range order {
+		judge(role, []string{"192.168.1.100:60001", "192.168.1.100"}[k/24%2])
+	}
+	for _, s := range []string{"192.168.1.100", "192.168.1.100:60001", "0.0.0.0", "0.0.0.0:0", "255.255.255.255", "255.255.255.255:60000", "10.0.0.1:0", "10.0.0.1:60000", "1.2.3.4:1", "::1", "1.2.3", ""} {
+		for _, role := range roles {
+			judge(role, s)
+		}
+	}
+	cold.Done(n)
 }
